@@ -209,7 +209,10 @@ func c14MessageSize(limit, size int) (string, string, bool) {
 	return "", "", true
 }
 
-func c14MsgRate(rate, burstN, n int) (string, string, bool) {
+// c14MsgRate floods n messages over one connection; with idle > 0 one message is sent
+// first and the connection then stays silent for that long (a bucket must not save up
+// more than its burst while idle).
+func c14MsgRate(rate, burstN, n int, idle time.Duration) (string, string, bool) {
 	srv, err := c14Start("--ws-msgs-per-sec", fmt.Sprint(rate), "--ws-msgs-burst", fmt.Sprint(burstN), "--ws-connects-per-min", "0", "--session-creates-per-min", "0")
 	if err != nil {
 		return "server-start", err.Error(), false
@@ -227,6 +230,17 @@ func c14MsgRate(rate, burstN, n int) (string, string, bool) {
 	}
 	defer b.close()
 	b.waitFor(time.Second, hasType(protocol.TypePeerList))
+	before := 0
+	if idle > 0 {
+		payload, _ := json.Marshal(map[string]string{"tok": "first"})
+		a.sendEnv(protocol.Envelope{V: 1, Type: "x-verif", MsgID: "first", To: "b", Payload: payload})
+		time.Sleep(idle)
+		for _, r := range b.snapshot() {
+			if tokenOf(r) != "" {
+				before++
+			}
+		}
+	}
 	t0 := time.Now()
 	for i := 0; i < n; i++ {
 		payload, _ := json.Marshal(map[string]string{"tok": fmt.Sprintf("t%d", i)})
@@ -236,7 +250,7 @@ func c14MsgRate(rate, burstN, n int) (string, string, bool) {
 	}
 	time.Sleep(150 * time.Millisecond)
 	t1 := time.Now()
-	delivered := 0
+	delivered := -before
 	for _, r := range b.snapshot() {
 		if tokenOf(r) != "" {
 			delivered++
@@ -249,7 +263,7 @@ func c14MsgRate(rate, burstN, n int) (string, string, bool) {
 		}
 		allowed := float64(eff) + float64(rate)*t1.Sub(t0).Seconds() + 1
 		if float64(delivered) > allowed {
-			return "message-rate-exceeded", fmt.Sprintf("--ws-msgs-per-sec %d --ws-msgs-burst %d: %d messages delivered within %s (bound %.1f)", rate, burstN, delivered, t1.Sub(t0), allowed), true
+			return "message-rate-exceeded", fmt.Sprintf("--ws-msgs-per-sec %d --ws-msgs-burst %d: %d messages delivered within %s (bound %.1f) after one message and %s of silence", rate, burstN, delivered, t1.Sub(t0), allowed, idle), true
 		}
 		return "", "", delivered < n
 	}
@@ -308,7 +322,7 @@ func c14Lifetime(timeout time.Duration) (string, string, bool) {
 	}
 	defer r1.close()
 	host.close()
-	if !r1.waitFor(2*time.Second, func(in []received) bool {
+	if !r1.waitFor(5*time.Second, func(in []received) bool {
 		for _, r := range in {
 			if r.Env.Type == protocol.TypePeerLeft && strings.Contains(r.Raw, "host") {
 				return true
@@ -316,7 +330,9 @@ func c14Lifetime(timeout time.Duration) (string, string, bool) {
 		}
 		return false
 	}) {
-		return "no-peer-left", "the receiver was not told that the host left", true
+		// (the notification is only used to know that the server has noticed the host's
+		// departure; it is not part of this property - wait it out instead)
+		time.Sleep(3 * time.Second)
 	}
 	time.Sleep(300 * time.Millisecond)
 	if r2, st, err := srv.dial(s2.Code, "r2", "receiver"); err == nil {
@@ -352,8 +368,9 @@ func TestVerifC14Server(t *testing.T) {
 		probe{"max-message-bytes=2000 size 3000", func() (string, string, bool) { return c14MessageSize(2000, 3000) }},
 		probe{"max-message-bytes=2000 size 1000", func() (string, string, bool) { return c14MessageSize(2000, 1000) }},
 		probe{"max-message-bytes=0 size 100000", func() (string, string, bool) { return c14MessageSize(0, 100000) }},
-		probe{"ws-msgs-per-sec=20 burst=5 n=80", func() (string, string, bool) { return c14MsgRate(20, 5, 80) }},
-		probe{"ws-msgs-per-sec=0 n=200", func() (string, string, bool) { return c14MsgRate(0, 5, 200) }},
+		probe{"ws-msgs-per-sec=20 burst=5 n=80", func() (string, string, bool) { return c14MsgRate(20, 5, 80, 0) }},
+		probe{"ws-msgs-per-sec=40 burst=5 n=120 after 1.5s idle", func() (string, string, bool) { return c14MsgRate(40, 5, 120, 1500*time.Millisecond) }},
+		probe{"ws-msgs-per-sec=0 n=200", func() (string, string, bool) { return c14MsgRate(0, 5, 200, 0) }},
 		probe{"session-timeout=1.2s lifetime", func() (string, string, bool) { return c14Lifetime(1200 * time.Millisecond) }},
 		probe{"session-timeout=0 lifetime", func() (string, string, bool) { return c14Lifetime(0) }},
 		probe{"session-timeout=1h lifetime (host leaves)", func() (string, string, bool) { return c14Lifetime(-1) }},
@@ -414,7 +431,8 @@ func TestVerifC14Server(t *testing.T) {
 			sig, detail, nt = c14MessageSize(limit, size)
 		default:
 			rate := rapid.SampledFrom([]int{0, 10, 40}).Draw(rt, "rate")
-			sig, detail, nt = c14MsgRate(rate, rapid.IntRange(1, 8).Draw(rt, "b"), rapid.IntRange(20, 120).Draw(rt, "n"))
+			idle := rapid.SampledFrom([]time.Duration{0, 0, 900 * time.Millisecond}).Draw(rt, "idle")
+			sig, detail, nt = c14MsgRate(rate, rapid.IntRange(1, 8).Draw(rt, "b"), rapid.IntRange(20, 120).Draw(rt, "n"), idle)
 		}
 		rec.Eval()
 		rec.Class("generated/" + kind)
